@@ -235,7 +235,7 @@ func CheckUnshardBase(tokenId int, tokens []string, rt *router.Router, db string
 			ruleDB = dbName
 		}
 		// if table in shard rule, is shard plan
-		if rt.GetRule(ruleDB, tableName) != rt.GetDefaultRule() {
+		if rt.GetRule(ruleDB, strings.ToLower(tableName)) != rt.GetDefaultRule() {
 			return ruleDB, false
 		}
 	}
@@ -260,7 +260,7 @@ func CheckUnshardInsert(tokens []string, rt *router.Router, db string) (string, 
 			ruleDB = dbName
 		}
 		// if table in shard rule, is shard plan
-		if rt.GetRule(ruleDB, tableName) != rt.GetDefaultRule() {
+		if rt.GetRule(ruleDB, strings.ToLower(tableName)) != rt.GetDefaultRule() {
 			return ruleDB, false
 		}
 	}
@@ -283,7 +283,7 @@ func CheckUnshardUpdate(tokens []string, rt *router.Router, db string) (string, 
 			ruleDB = dbName
 		}
 		// if table in shard rule, is shard plan
-		if rt.GetRule(ruleDB, tableName) != rt.GetDefaultRule() {
+		if rt.GetRule(ruleDB, strings.ToLower(tableName)) != rt.GetDefaultRule() {
 			return ruleDB, false
 		}
 	}
